@@ -788,14 +788,21 @@ impl Fiber {
   pub fn print_error(&self, log: &mut dyn Write, error: Instance) {
     writeln!(log, "Traceback (most recent call last):").expect("Unable to write to stderr");
 
-    for frame in self.frames.iter().rev() {
+    for (index, frame) in self.frames.iter().rev().enumerate() {
       let fun = frame.fun();
       let location: String = match &*fun.name() {
         SCRIPT => SCRIPT.to_owned(),
         _ => format!("{}()", &*fun.name()),
       };
 
-      let offset = unsafe { frame.ip().offset_from(fun.chunk().instructions().as_ptr()) } as usize;
+      // A frame the unwind paused in was redirected to its catch block. If that block
+      // declined the error the ip the frame was suspended at is the one saved for the backtrace
+      let ip = match self.backtrace_ips.get(index) {
+        Some(ip) => *ip,
+        None => frame.ip(),
+      };
+
+      let offset = unsafe { ip.offset_from(fun.chunk().instructions().as_ptr()) } as usize;
       writeln!(
         log,
         "  {}:{} in {}",
